@@ -311,7 +311,7 @@ func (p *sp) primary() Val {
 		return intV(lit)
 	}
 	switch t {
-	case "len", "old", "has", "ref", "off", "sliceof", "bufof", "abs", "min", "max":
+	case "len", "old", "has", "ref", "off", "sliceof", "bufof", "abs", "min", "max", "deref":
 		if p.peek() != "(" { // a program variable that happens to share a builtin's name
 			if v, ok := p.env[t]; ok {
 				return v
@@ -464,6 +464,28 @@ func (p *sp) primary() Val {
 		p.expect(")")
 		_, isOld := p.env["$old"]
 		return p.g.bufOf(p.st, a, isOld)
+	case t == "deref": // *p for a pointer to an integer or bool
+		p.expect("(")
+		a := p.iff()
+		p.expect(")")
+		pt, ok := a.Ty.(*types.Pointer)
+		if a.Ty != nil && !ok {
+			pt, ok = a.Ty.Underlying().(*types.Pointer)
+		}
+		if !ok || a.T == "" || !isScalarCell(pt.Elem()) {
+			panic(specErr{"spec: deref() needs a pointer to an integer or bool"})
+		}
+		key := derefKey(p.g, pt.Elem())
+		_, isOld := p.env["$old"]
+		h := p.g.heapGet(p.st, key)
+		if isOld {
+			h = p.g.entryHeapOf(key)
+		}
+		e := fmt.Sprintf("(select %s %s)", h, a.T)
+		if isBoolType(pt.Elem()) {
+			return Val{T: e, Kind: "bool"}
+		}
+		return intV(e)
 	case t == "abs":
 		p.expect("(")
 		a := p.iff()
